@@ -181,8 +181,9 @@ func genGroup(r *sx.Rng) group {
 	// extra keys collide freely across records, except the names reserved for EXECVE (argc, aN) and for derived
 	// socket data (socket_ prefix): the property's well-formed events
 	pool := []string{"k1", "k2", "pid", "uid", "exe", "cwd", "comm", "addr", "name", "items", "result", "ses", "subj_user", "obj", "auid", "ogid", "xuid", "ppid", "proctitle", "syscall", "hostname"}
+	mutate := func(t auparse.AuditMessageType, raw string) string { return raw }
 	add := func(t auparse.AuditMessageType) {
-		raw := genRecord(r, t, seq, sec, pool)
+		raw := mutate(t, genRecord(r, t, seq, sec, pool))
 		m, err := auparse.Parse(t, raw)
 		if err == nil {
 			g.msgs = append(g.msgs, m)
@@ -227,6 +228,18 @@ func genGroup(r *sx.Rng) group {
 			for k := len(types) - 1; k > 0; k-- {
 				j := r.Intn(k + 1)
 				types[k], types[j] = types[j], types[k]
+			}
+		}
+		if r.Chance(1, 12) {
+			// a SYSCALL record whose Data() fails, and an "items" key on the records around it
+			mutate = func(t auparse.AuditMessageType, raw string) string {
+				if t == auparse.AUDIT_SYSCALL {
+					return strings.Replace(raw, "arch=c000003e", "arch=zz", 1)
+				}
+				if t != auparse.AUDIT_EXECVE && t != auparse.AUDIT_SOCKADDR && t != auparse.AUDIT_EOE && !strings.Contains(raw, " items=") {
+					return raw + " items=q" + fmt.Sprint(r.Intn(9))
+				}
+				return raw
 			}
 		}
 		for _, t := range types {
